@@ -25,7 +25,7 @@ ASSUMPTIONS = [
     "reference orders are written from the definitions (recursion for pre/post order, explicit queue for level order) and use only .children",
     "depth of generated trees stays below Python's recursion limit (<= 60 nodes)",
 ]
-ENUM_CLASSES = ["Node", "SlotLM", "EqNode", "LenNode", "ListNode", "TupleNode", "ShadowMRO"]
+ENUM_CLASSES = ["Node", "SlotLM", "EqNode", "LenNode", "ListNode", "TupleNode", "ShadowMRO", "CachedKids", "ViewMix"]
 
 
 def check_deep(case, acc):
